@@ -11,8 +11,9 @@ import subprocess
 from harness import common
 
 PROP = "C14"
-LEAN_MODULE = "Ztr.Props.C14"
-THEOREMS = ["Ztr.Discovery.C14_once", "Ztr.Discovery.C14_enum_independent_files",
+LEAN_MODULE = "Ztr.Props.C14Tree"
+LEAN_DEPS = ["Ztr.Props.C14"]
+THEOREMS = ["Ztr.Discovery.C14_enum_independent", "Ztr.Discovery.C14_enum_independent_roots", "Ztr.Discovery.C14_once", "Ztr.Discovery.C14_enum_independent_files",
             "Ztr.Discovery.C14_enum_independent_dirs", "Ztr.Discovery.C14_exact", "Ztr.Discovery.C14_winner_spec",
             "Ztr.Discovery.C14_import_gate", "Ztr.Discovery.C14_import_once", "Ztr.Discovery.C14_module_name_has_package",
             "Ztr.Discovery.C14_ignore_folders"]
